@@ -68,6 +68,12 @@ def run(ctx) -> None:
         ctx.reuse("C09.slots", c07.step_block, dev)
     ctx.reuse("C09.sanitise", c07.wash_method)
     ctx.guard("C09.diti-switch", diti_switch)
+    # the exclusion list may be any collection of integers, a numpy array included: "none given" is decided by `is None`
+    from .common import truthiness_rule
+
+    ctx.guard("C09.slots", truthiness_rule, "C09.slots", ("BaseWorklist.reagent_distribution",), ("exclude_wells",),
+              "a numpy array of several wells has no truth value (the valid call raises), and numpy.array([0]) or an array holding one falsy entry counts as 'nothing excluded' - "
+              "the R record no longer returns the exclusion list that was supplied")
     ctx.guard("C09.modes", modes)
 
 
